@@ -399,6 +399,21 @@ INST_ROUNDS = int(os.environ.get("PYVC_INST_ROUNDS", "7"))
 LIGHT_LABELS = ("requires:", "cinv:", "branch", "loop-index", "loop-iter", "loop-exit", "obl:", "ax:", "assume",
                 "raises", "no-raise", "map-len")
 FOLD_UNFOLD_ROUNDS = 3
+def _load_hints():
+    p = os.path.join(os.path.dirname(os.path.dirname(os.path.abspath(__file__))), "proof_hints.json")
+    try:
+        with open(p) as f:
+            return json.load(f)
+    except Exception:
+        return {}
+
+
+def _hint_key(name):
+    return name
+
+
+HINTS = _load_hints()
+OB_BUDGET_S = int(os.environ.get('PYVC_OB_BUDGET_S', '75'))
 QUICK_ATTEMPT_MS = int(os.environ.get('PYVC_QUICK_MS', '10000'))
 
 
@@ -847,9 +862,15 @@ def discharge(reg: Registry, ob: Obligation, both=False):
     for sname, shyps in stages:
         for use_ext, level, label in attempts:
             plan.append((sname, shyps, use_ext, level, label if sname == "all" else f"{label}/{sname}"))
+    hint = HINTS.get(_hint_key(ob.name))
+    if hint:
+        plan.sort(key=lambda p: 0 if p[4] == hint else 1)      # proof hints only change the order of the attempts
     for sname, shyps, use_ext, level, label in plan:
         if use_ext and eg is None:
             continue
+        if time.time() - t0 > OB_BUDGET_S and r is not None:
+            tried.append("budget exhausted")
+            break
         if sname not in ("all", "same-aspect") and level > 0:
             continue
         g0 = eg if use_ext else ob.goal
@@ -859,7 +880,9 @@ def discharge(reg: Registry, ob: Obligation, both=False):
             tried.append(f"{label}: prepare failed {e!r}")
             continue
         prepared[label] = (hyps, goal)
-        r2 = solve.check(hyps, goal, both=both, timeout_ms=QUICK_ATTEMPT_MS, use_cvc5=both)
+        # a hinted attempt (the one that discharged this obligation before) gets the full solver budget
+        r2 = solve.check(hyps, goal, both=both, timeout_ms=(None if (hint and label == hint) else QUICK_ATTEMPT_MS),
+                         use_cvc5=both)
         tried.append(f"{label}: {r2['result']} {r2['time_s']}s")
         if r2["result"] == "proved":
             r = r2
@@ -868,7 +891,8 @@ def discharge(reg: Registry, ob: Obligation, both=False):
         if r is None or (r["result"] == "unknown" and r2["result"] == "refuted"):
             r = r2
             r["tactic"] = label
-    if r is not None and r["result"] == "unknown" and prepared and os.environ.get("PYVC_FAST") != "1":
+    if r is not None and r["result"] == "unknown" and prepared and os.environ.get("PYVC_FAST") != "1" \
+            and time.time() - t0 < 2 * OB_BUDGET_S:
         # nothing decided within the quick budget: full budget on every prepared form, cvc5 for z3's unknowns
         for label, (hyps, goal) in prepared.items():
             r2 = solve.check(hyps, goal, both=both)
@@ -926,6 +950,7 @@ def verify_function(prog: Program, reg: Registry, qualname: str, only_serves=Non
         if fv.contract.bounded_only:
             raise EngineUnsupported("proof not attempted (bounded stand-in only): " + fv.contract.bounded_only)
         rep["fingerprint"] = fv.fi.fingerprint()
+        rep["vc_hash"] = fv.fi.vc_hash(prog)
         rep["file"] = os.path.relpath(fv.fi.path, prog.repo)
         rep["line"] = fv.fi.node.lineno
         obligations, info = fv.run()
